@@ -1,6 +1,26 @@
-(* C16 / C17 / C18 for the JSON parser model: how the parser treats its
+(* C16 / C17 / C18 for the JSON parser model (Json/Parse.v): how the parser treats its
    visitor, what state it is in after an accepted input, and the pull decoder.
-   The float parser [pf] is a Section variable. *)
+   The float parser [pf] is a Section variable.  All theorems are closed under the
+   global context.
+
+   C16  C16_json_parse_prompt, C16_json_parse_fail_spec, C16_json_parse_prefix (Write...Write),
+        C16_json_run_parse_* (Parse), C16_json_parse_total_prefix (with totality).
+   C17  C17_json_parse_idle, C17_json_writes_idle, C17_json_run_parse_reset, C17_json_run_chunks_reset:
+        after an accepted input cur = jStart, states = [], inEscape = false (and no error latched:
+        jp_parse_err0).  jp_lit is NOT always empty: a top-level number that only finalize reports
+        stays in the literal buffer (C17_json_parse_idle says exactly when; Example
+        C17_json_write_after_number shows that a Write on such a parser mis-parses an object key).
+        Behavioural form: C17_json_reuse_parse / C17_json_parse_reusable (Parse on the used parser
+        = Parse on a fresh one, any visitor), C17_json_reuse_writes / C17_json_write_reusable
+        (Write flavour, side condition jp_lit p = []).
+   C18  (a) C18_json_next_total, C18_json_run_total: Next returns for every reader script;
+        (b) C18_json_next_value_partial: a nil Next delivered >= 1 event, left the parser idle and
+            consumed input (measure jmu); C18_json_next_tree: its events are [flatten t] for one tree
+            (not proved: wf_tree t; "consumed" is stated on lengths, not as a suffix);
+        (c) C18_json_script_independent_partial, C18_json_run_script_independent_partial,
+            C18_json_reader_as_bytes_partial, C18_json_scripts_same_data: the sequence of
+            (events, verdict) per Next depends only on the concatenated data, for well-behaved
+            scripts (script_okb: nil errors, except io.EOF with or after the last data). *)
 From Coq Require Import Setoid List NArith ZArith Bool Lia.
 From Coq Require Import ZifyBool ZifyNat ZifyN.
 From SF Require Import Base.Prelude Base.Utf8 Core.Events Core.EventsProofs Json.Parse Json.ParseSafety Json.ChunkProofs.
